@@ -128,8 +128,9 @@ class ScriptedExecutor(P.ProcessExecutor):
         SCRIPT.submit_tids.append(getattr(kwargs.get('task'), 'label', -1))
         self._fid(future)
         obs = self._obs()
-        if obs['pendq'] and len(obs['running']) < self.max_workers:
-            SCRIPT.violations.append(('idle-slot', f"{len(obs['pendq'])} futures pending but only {len(obs['running'])} of {self.max_workers} workers running after submit()"))
+        limit = SCRIPT.expected_maxw if getattr(SCRIPT, 'expected_maxw', None) is not None else self.max_workers
+        if obs['pendq'] and len(obs['running']) < limit:
+            SCRIPT.violations.append(('idle-slot', f"{len(obs['pendq'])} futures pending but only {len(obs['running'])} of {limit} workers running after submit()"))
         SCRIPT.ops.append(['submit', [], obs])
         return future
 
@@ -163,8 +164,9 @@ class ScriptedExecutor(P.ProcessExecutor):
         left = [i for i in had_dead if i in obs['running']]
         if left:
             SCRIPT.violations.append(('dead-not-detected', f'workers {left} were dead before wait() and are still counted as running after it'))
-        if obs['pendq'] and len(obs['running']) < self.max_workers:
-            SCRIPT.violations.append(('idle-slot', f"{len(obs['pendq'])} futures pending but only {len(obs['running'])} of {self.max_workers} workers running after wait()"))
+        limit = SCRIPT.expected_maxw if getattr(SCRIPT, 'expected_maxw', None) is not None else self.max_workers
+        if obs['pendq'] and obs['alive'] < limit:
+            SCRIPT.violations.append(('idle-slot', f"{len(obs['pendq'])} futures pending but only {obs['alive']} live worker processes for {limit} slots after wait()"))
         # fill in ok flags of the finished ones from the future status
         st = {i: s for i, s in obs['done']}
         for e in envs:
